@@ -291,7 +291,7 @@ func c07pkLen(r *vu.RNG, small bool) int {
 	if small || r.Chance(3, 4) {
 		return r.Intn(6)
 	}
-	if r.Chance(1, 12) {
+	if r.Chance(1, 60) {
 		return c07pkLens[r.Intn(len(c07pkLens))]
 	}
 	return c07pkLens[r.Intn(len(c07pkLens)-4)]
@@ -302,7 +302,7 @@ func c07val(r *vu.RNG, small bool) []byte {
 	switch {
 	case small:
 		l = r.Intn(5)
-	case r.Chance(1, 30):
+	case r.Chance(1, 120):
 		l = c07valLens[r.Intn(len(c07valLens))]
 	default:
 		l = c07valLens[r.Intn(9)]
@@ -659,7 +659,7 @@ func c07Gen(r *vu.RNG, n int, emit0 func(string)) {
 		if strings.HasPrefix(in, "dec ") {
 			if c07maxDeclared(vu.UnHex(in[4:]), 0) > 1<<22 {
 				giants++
-				if giants > 24 {
+				if giants > c07giantBudget() {
 					in = "dec " + vu.Hex(r.Bytes(1+r.Intn(6)))
 					if c07maxDeclared(vu.UnHex(in[4:]), 0) > 1<<22 {
 						in = "dec 4100"
@@ -734,4 +734,13 @@ func c07Gen(r *vu.RNG, n int, emit0 func(string)) {
 
 func TestVerifC07(t *testing.T) {
 	vu.Run(t, "C07", 6000, c07Gen, c07Run)
+}
+
+// c07giantBudget: how many inputs that declare a byte string above 4 MiB a run may contain
+// (each costs the Go runtime up to seconds of page faults on this machine).
+func c07giantBudget() int {
+	if vu.Thorough() {
+		return 40
+	}
+	return 6
 }
